@@ -2,7 +2,7 @@
     ExtrOcamlBasic only (its Extract Inductive for bool, option, unit, list, prod, sumbool,
     sumor, comparison as shipped); no Extract Constant; nat stays Peano. *)
 From Coq Require Extraction ExtrOcamlBasic.
-From Tephra Require Import Base Text Metrics Span Source Scanner CLexer Ctx HCtx Grammar Run Render.
+From Tephra Require Import Base Text Metrics Span Source Scanner CLexer Ctx HCtx Grammar Run Render RenderColor.
 Extraction Language OCaml.
 Set Extraction KeepSingleton.
 Extraction "model.ml"
@@ -20,4 +20,4 @@ Extraction "model.ml"
   c_next_if c_next_if_eq c_advance_to c_advance_up_to c_drain c_token_span c_parse_span c_cursor_pos
   c_peek_token_span c_peek_parse_span c_peek_cursor_pos c_is_empty_with_filter c_at_end fuel_of
   ctx_new run_trees ctx_pushed run mkstore set_met hrun hinit
-  sd_new cd_render.
+  sd_new cd_render cd_render_c den strip.
